@@ -301,16 +301,23 @@ def run_layouts(acc, wd, gi, rng, seed):
     (same include string, different sibling files) and through a trailing -I directory; alone vs together, every
     order. Whatever else is compiled in the same run, each input must produce the same bytes."""
     root = os.path.join(wd, 'l%d' % gi)
-    dirs = {n: os.path.join(root, n) for n in ('alpha', 'beta', 'gamma', 'inc0', 'inc1')}
+    dirs = {n: os.path.join(root, n) for n in ('alpha', 'beta', 'gamma', 'inc0', 'inc1', 'shared', 'elsewhere')}
     for d in dirs.values():
         os.makedirs(d)
+    # one file, reached through a symbolic link of the same name in every input directory; it includes ITS sibling
+    # "types.prophy", which is a different file in each of those directories
+    open(os.path.join(dirs['shared'], 'frame_target.prophy'), 'w').write(
+        '#include "types.prophy"\nstruct Frame { u16 cells[LINK_LEN]; u8 t; };\n')
+    # a working directory that holds a same-named, different common.prophy (only -I directories may supply it)
+    open(os.path.join(dirs['elsewhere'], 'common.prophy'), 'w').write('const SHARED_LEN = 9;\nstruct Shared { u64 x; };\n')
     inputs = {}
     for k, n in enumerate(('alpha', 'beta', 'gamma')):
         # sibling file with the SAME name in every directory, different content
         open(os.path.join(dirs[n], 'types.prophy'), 'w').write(
-            'const LEN_%s = %d;\nstruct Item_%s { u%d v; };\n' % (n, k + 2, n, 8 << k))
-        body = ('#include "types.prophy"\n#include "common.prophy"\n'
-                'struct Main_%s { Item_%s items[LEN_%s]; Shared s; u16 tail[SHARED_LEN]; };\n' % (n, n, n))
+            'const LEN_%s = %d;\nconst LINK_LEN = %d;\nstruct Item_%s { u%d v; };\n' % (n, k + 2, k + 3, n, 8 << k))
+        os.symlink(os.path.join(dirs['shared'], 'frame_target.prophy'), os.path.join(dirs[n], 'frame.prophy'))
+        body = ('#include "types.prophy"\n#include "common.prophy"\n#include "frame.prophy"\n'
+                'struct Main_%s { Item_%s items[LEN_%s]; Shared s; u16 tail[SHARED_LEN]; Frame f; };\n' % (n, n, n))
         p = os.path.join(dirs[n], n + '.prophy')
         open(p, 'w').write(body)
         inputs[n] = p
@@ -320,13 +327,13 @@ def run_layouts(acc, wd, gi, rng, seed):
     open(os.path.join(dirs['inc0'], 'unused.prophy'), 'w').write('const UNUSED = 1;\n')
     results = {}
 
-    def go(tag, names, hashseed='0'):
+    def go(tag, names, hashseed='0', cwd=None):
         out = os.path.join(root, 'out_' + tag)
         os.makedirs(out)
         args = ['--quiet', '-I', dirs['inc0'], '-I', dirs['inc1']]
         for o in OUTS:
             args += [o, out]
-        rc, so, se = pc.run_cli(args + [inputs[n] for n in names], cwd=root, hashseed=hashseed)
+        rc, so, se = pc.run_cli(args + [inputs[n] for n in names], cwd=cwd or root, hashseed=hashseed)
         acc.ev()
         acc.count('cli_runs')
         acc.count('layout_runs')
@@ -334,6 +341,7 @@ def run_layouts(acc, wd, gi, rng, seed):
         results[tag] = (rc, se, snapshot(out) if rc == 0 else None)
     for n in inputs:
         go('alone-' + n, [n])
+    go('togetherFromElsewhere-alpha-gamma', ['alpha', 'gamma'], cwd=dirs['elsewhere'])
     import itertools
     orders = list(itertools.permutations(['alpha', 'beta', 'gamma']))
     rng.shuffle(orders)
